@@ -229,7 +229,7 @@ def queries(tier, seed):
             total = len(b"".join(_stream(kinds, [0x10000 + 17 * i for i in range(len(kinds))])))
             qs.append(Q(f"segmented/{role}/{'-'.join(kinds)}/cuts{ncuts}", "segmented", {"role": role, "kinds": kinds, "ncuts": ncuts, "total": total}, cto=t, pto=t,
                         what=f"{role}: {kinds} ({total} bytes) cut at {ncuts} arbitrary position(s): every segmentation"))
-        qs.append(Q(f"ids_symbolic/{role}", "ids_symbolic", {"role": role}, cto=t, pto=t, what=f"{role}: identifiers symbolic, one cut in the first 40 bytes"))
+        qs.append(Q(f"ids_symbolic/{role}", "ids_symbolic", {"role": role}, cto=max(t, 400), pto=max(t, 400), what=f"{role}: identifiers symbolic, one cut in the first 40 bytes"))
     L1 = len(_app_req(0, 0x30000))
     qs.append(Q("interleaved/aligned/P1", "interleaved", {"role": "CLIENT", "kinds": ["req", "req"], "cuts": [L1], "K": 48, "maxp": 1}, cto=t, pto=t,
                 what="reader / receive worker / state machine / consumer as coroutines, 2 requests in 2 message-aligned reads: every schedule with <= 1 preemption"))
@@ -237,7 +237,7 @@ def queries(tier, seed):
                 what="same, reads cut inside the first header and inside the second message: every schedule with <= 1 preemption"))
     LN = ["read", "recv_message_from_queue"]
     qs.append(Q("interleaved/arrival/reader-worker/lines/P1", "interleaved",
-                {"role": "CLIENT", "kinds": ["req", "req"], "cuts": [L1], "K": 64, "maxp": 1, "network": True, "threads": "RW", "lines": LN}, cto=max(t, 400), pto=max(t, 400),
+                {"role": "CLIENT", "kinds": ["req", "req"], "cuts": [L1], "K": 64, "maxp": 1, "network": True, "threads": "RW", "lines": LN}, cto=max(t, 400), pto=max(t, 400), split=3,
                 what="reader + receive worker + a network thread delivering the 2nd segment at an arbitrary moment; preemption point before EVERY statement of "
                      "read() and recv_message_from_queue(): every schedule with <= 1 preemption; oracle: the association's inbound queue"))
     if tier != "quick":
